@@ -112,6 +112,42 @@ def step (d : D) (op impl : String) : D × DrvOut :=
       let (sp, v) := verdict sp true impl
       let pm := if (created d.st.handlers f).all validScheme then panicNil else panicScheme
       ({ d with st := st, sp := sp }, { model := modelOut d.reduced d.st st pm, spec := v })
+  -- two manager calls back to back (the second before the goroutines of the first have run):
+  -- the model takes both steps, the property is evaluated on the state observed after quiescence
+  | ["start+stop", k] =>
+    match k.toNat? with
+    | none => (d, { model := "bad-op" })
+    | some k =>
+      let st := C39.step (C39.step d.st (.start k)) .stop
+      let sp := { d.sp with wfOK := d.sp.wfOK && !d.sp.avail, avail := false, strm := k }
+      let (sp, v) := verdict sp false impl
+      ({ d with st := st, sp := sp }, { model := modelOut d.reduced d.st st panicNil, spec := v })
+  | "start+reload" :: k :: confs =>
+    match k.toNat?, confs.mapM parseConf with
+    | some k, some f =>
+      let st := C39.step (C39.step d.st (.start k)) (.reload f)
+      let sp := { d.sp with wfOK := d.sp.wfOK && !d.sp.avail && f.all validScheme, avail := true, strm := k, cfg := f }
+      let (sp, v) := verdict sp false impl
+      ({ d with st := st, sp := sp }, { model := modelOut d.reduced d.st st panicNil, spec := v })
+    | _, _ => (d, { model := "bad-op" })
+  | "reload+reload" :: rest =>
+    let a := rest.takeWhile (· != "/")
+    let b := (rest.dropWhile (· != "/")).drop 1
+    match a.mapM parseConf, b.mapM parseConf with
+    | some f1, some f2 =>
+      let st := C39.step (C39.step d.st (.reload f1)) (.reload f2)
+      let sp := { d.sp with wfOK := d.sp.wfOK && f1.all validScheme && f2.all validScheme, cfg := f2 }
+      let (sp, v) := verdict sp false impl
+      ({ d with st := st, sp := sp }, { model := modelOut d.reduced d.st st panicNil, spec := v })
+    | _, _ => (d, { model := "bad-op" })
+  | "reload+stop" :: confs =>
+    match confs.mapM parseConf with
+    | some f =>
+      let st := C39.step (C39.step d.st (.reload f)) .stop
+      let sp := { d.sp with wfOK := d.sp.wfOK && d.sp.avail && f.all validScheme, avail := false, cfg := f }
+      let (sp, v) := verdict sp false impl
+      ({ d with st := st, sp := sp }, { model := modelOut d.reduced d.st st panicNil, spec := v })
+    | none => (d, { model := "bad-op" })
   | _ => (d, { model := "bad-op" })
 
 def main (args : List String) : IO UInt32 := runDriver args ({} : D) step
